@@ -2,6 +2,7 @@ import OmbottModel.Model.Cookies
 import OmbottModel.Model.CookiesLib
 import OmbottModel.Lemmas.Cookies
 import OmbottModel.Lemmas.B64
+import OmbottModel.Lemmas.CookieTok
 /-!
 C15 — Cookies round-trip; forged signed cookies are never deserialised.
 Property theorems only; helper lemmas live in `Lemmas/Cookies.lean`.  The library parameter
@@ -179,6 +180,50 @@ theorem plain_roundtrip (L : Lib) (name v : Str) (hn : LegalName name)
   have : v.isEmpty = false := by simpa using hne
   simp [dictGet_single, this]
 
+/-! ### the same for the library exactly as the driver instantiates it
+
+For `concreteLib pk` (HMAC-MD5 and base64 of `Py.Crypto`, the `http.cookies` tokeniser
+`parseCookies`, `pickle` as a table) the base64 and tokeniser contracts are theorems
+(`Lemmas/B64.lean`, `Lemmas/CookieTok.lean`), so they disappear from the statements: what is left
+is the pickle round trip on the one object and, for the wrong secret, the MAC inequality. -/
+
+/-- **plain_roundtrip** for the model the driver runs: no library hypothesis at all. -/
+theorem plain_roundtrip_concrete (pk : PkTable) (name v : Str) (hn : LegalName name)
+    (hv : ∀ c ∈ v, c.toNat < 256) (hne : v ≠ []) (hlen : v.length ≤ 4096) :
+    roundTrip (concreteLib pk) name (.text v) [] = (.ok (some (.text v)), []) :=
+  plain_roundtrip (concreteLib pk) name v hn hv hne hlen
+    (tokContract_parseCookies (concreteLib pk) rfl name v hn hv)
+
+/-- **signed_roundtrip** for the model the driver runs: only `pickle.loads(pickle.dumps(x)) == x`
+for the object in question is assumed. -/
+theorem signed_roundtrip_concrete (pk : PkTable) (name : Str) (value : CVal) (secret : Bytes)
+    (hn : LegalName name) (hs : secret ≠ [])
+    (hlen : (cookieEncode (concreteLib pk) (name, value) secret).length ≤ 4096)
+    (hp : PickleAt (concreteLib pk) (name, value)) :
+    roundTrip (concreteLib pk) name value secret =
+      (.ok (some value), [(concreteLib pk).pickle (name, value)]) := by
+  have hb := b64Contract_of_crypto (concreteLib pk) rfl rfl
+  refine signed_roundtrip (concreteLib pk) hb name value secret hn hs hlen hp ?_
+  apply tokContract_parseCookies (concreteLib pk) rfl name _ hn
+  intro c hc
+  have := (encode_chars (concreteLib pk) hb (name, value) secret c hc).2.1
+  omega
+
+/-- **wrong_secret_absent** for the model the driver runs: only the MAC inequality is assumed. -/
+theorem wrong_secret_absent_concrete (pk : PkTable) (name : Str) (value : CVal) (key secret : Bytes)
+    (hn : LegalName name) (hk : key ≠ []) (hs : secret ≠ [])
+    (hlen : (cookieEncode (concreteLib pk) (name, value) key).length ≤ 4096)
+    (hmac : Crypto.hmacMd5 secret (Crypto.b64encode ((concreteLib pk).pickle (name, value))) ≠
+      Crypto.hmacMd5 key (Crypto.b64encode ((concreteLib pk).pickle (name, value)))) :
+    ∃ jar, setCookie (concreteLib pk) [] name value key = .ok jar ∧
+      getCookie (concreteLib pk) (clientHeader (emit jar)) name secret = (.ok none, []) := by
+  have hb := b64Contract_of_crypto (concreteLib pk) rfl rfl
+  refine wrong_secret_absent (concreteLib pk) hb name value key secret hn hk hs hlen ?_ hmac
+  apply tokContract_parseCookies (concreteLib pk) rfl name _ hn
+  intro c hc
+  have := (encode_chars (concreteLib pk) hb (name, value) key c hc).2.1
+  omega
+
 /-- the `Set-Cookie` value of a Latin-1 cookie consists of printable ASCII only: no CR, LF, NUL or
 any other control character (what C14's `wsgi_emitted_clean` assumes about the cookie jar) -/
 theorem emit_clean (name v : Str) (hn : LegalName name) (hv : ∀ c ∈ v, c.toNat < 256) :
@@ -206,15 +251,14 @@ the table point and the tokeniser on the emitted header by evaluation -/
 example : B64Contract exLib := b64Contract_of_crypto exLib rfl rfl
 example : LegalName "sid".toList := by decide
 example : PickleAt exLib ("sid".toList, .obj [49]) := by decide +kernel
-example : TokAt exLib "sid".toList (latin1Dec exData) := by decide +kernel
+example : TokContract exLib := tokContract_parseCookies exLib rfl
 
 /-- `decode_calls_unpickle_only_if_mac_ok`: there are inputs on which the unpickler is called -/
 example : [128, 5, 75, 1, 46] ∈ (cookieDecode exLib exData exKey).2 := by decide +kernel
 
 /-- `signed_roundtrip` instantiated (all five hypotheses discharged) -/
 example : roundTrip exLib "sid".toList (.obj [49]) exKey = (.ok (some (.obj [49])), [[128, 5, 75, 1, 46]]) :=
-  signed_roundtrip exLib (b64Contract_of_crypto exLib rfl rfl) _ _ _ (by decide) (by decide)
-    (by decide +kernel) (by decide +kernel) (by decide +kernel)
+  signed_roundtrip_concrete _ _ _ _ (by decide) (by decide) (by decide +kernel) (by decide +kernel)
 
 /-- `wrong_secret_absent`: the MACs under `key` and `oth` differ on this message -/
 example : exLib.hmac exOther (exLib.b64 (exLib.pickle ("sid".toList, .obj [49]))) ≠
@@ -242,8 +286,8 @@ example : getCookie exLib ("uid=\"!Hsf0NE3yohm5B06oF4y7cg==?gAVLAS4=\"".toList) 
     (.ok none, [[128, 5, 75, 1, 46]]) := by decide +kernel
 
 /-- `plain_roundtrip`: hypotheses met by a value with separators, quotes and Latin-1 text -/
-example : LegalName "n".toList ∧ (∀ c ∈ "a;b \"é\\073".toList, c.toNat < 256) ∧ TokAt exLib "n".toList "a;b \"é\\073".toList := by
-  refine ⟨by decide, by decide, by decide +kernel⟩
+example : LegalName "n".toList ∧ (∀ c ∈ "a;b \"é\\073".toList, c.toNat < 256) ∧ TokAt exLib "n".toList "a;b \"é\\073".toList :=
+  ⟨by decide, by decide, tokContract_parseCookies exLib rfl _ _ (by decide) (by decide)⟩
 example : roundTrip exLib "n".toList (.text "a;b \"é\\073".toList) [] = (.ok (some (.text "a;b \"é\\073".toList)), []) := by
   decide +kernel
 
